@@ -499,8 +499,41 @@ func main() {
 		adst, _ := filepath.Abs(dst)
 		overlay[sf.dst] = adst
 	}
+	// generated: snapshot / restore of EVERY package-level variable (also ones a change to the tree adds),
+	// so that each explored execution starts from the same state
+	var names []string
+	for _, sf := range files {
+		for _, d := range sf.f.Decls {
+			gd, ok := d.(*ast.GenDecl)
+			if !ok || gd.Tok != token.VAR {
+				continue
+			}
+			for _, sp := range gd.Specs {
+				for _, n := range sp.(*ast.ValueSpec).Names {
+					if n.Name != "_" {
+						names = append(names, n.Name)
+					}
+				}
+			}
+		}
+	}
+	sort.Strings(names)
+	var gb strings.Builder
+	gb.WriteString("package " + files[0].f.Name.Name + "\n\nimport zzvrt " + strconv.Quote(modPath+"/zzvrt") + "\n\nvar zzvrtRestore []func()\n\n")
+	gb.WriteString("// VerifResetGlobals restores every package-level variable to the value it had at the first call\n// (generated by the instrumenter; maps and slices are cloned one level deep).\nfunc VerifResetGlobals() {\n\tif zzvrtRestore == nil {\n\t\tzzvrtRestore = []func(){\n")
+	for _, n := range names {
+		gb.WriteString("\t\t\tzzvrt.Snapshot(&" + n + "),\n")
+	}
+	gb.WriteString("\t\t}\n\t\treturn\n\t}\n\tfor _, f := range zzvrtRestore {\n\t\tf()\n\t}\n}\n")
+	gdst := filepath.Join(*out, "src", "zz_verif_globals.go")
+	if err := os.WriteFile(gdst, []byte(gb.String()), 0644); err != nil {
+		fmt.Fprintln(os.Stderr, "instrument:", err)
+		os.Exit(2)
+	}
+	agdst, _ := filepath.Abs(gdst)
+	overlay[filepath.Join(absRepo, "zz_verif_globals.go")] = agdst
 	writeOverlay(*out, overlay)
-	fmt.Fprintf(os.Stderr, "instrument: %d files, %d edits\n", len(files), nedits)
+	fmt.Fprintf(os.Stderr, "instrument: %d files, %d edits, %d package-level variables\n", len(files), nedits, len(names))
 }
 
 func writeOverlay(out string, overlay map[string]string) {
